@@ -383,4 +383,491 @@ theorem hangul_rt2 (H : Hangul) (hH : HangulStd H) (a b s : Nat) (hb : b ≠ H.t
       rw [if_neg a1, if_pos a2, a3, a4]
     · cases h
 
+/-! ## Part 3: `decompose` picks the shortest / longest supported candidate -/
+
+/-- the second component of a decomposition as a list (`'\0'` = none) -/
+def bl (b : Nat) : List Nat := if b = 0 then [] else [b]
+
+/-- `Cand U F c k out`: following `k` decomposition links (first components) from `c` reaches a
+    character `a_k` the font maps, every second component `b_1 … b_k` on the way is absent or mapped,
+    and `out = a_k :: b_k :: … :: b_1`. -/
+inductive Cand (U : UData) (F : Font) : Nat → Nat → List Nat → Prop
+  | base {c a b : Nat} : U.decomp c = some (a, b) → F.has a = true → (b = 0 ∨ F.has b = true) →
+      Cand U F c 1 (a :: bl b)
+  | step {c a b k : Nat} {out : List Nat} : U.decomp c = some (a, b) → (b = 0 ∨ F.has b = true) →
+      Cand U F a k out → Cand U F c (k + 1) (out ++ bl b)
+
+theorem Cand.pos {U : UData} {F : Font} {c k : Nat} {out : List Nat} (h : Cand U F c k out) : 1 ≤ k := by
+  cases h <;> omega
+
+/-- the `b` part of `decompose`'s output -/
+def bOut (F : Font) (b : Nat) : List (Nat × Nat) :=
+  if b ≠ 0 then (match F.glyph b with | some g => [(b, g)] | none => []) else []
+
+theorem bOut_map (F : Font) (b : Nat) (h : b = 0 ∨ F.has b = true) : (bOut F b).map (·.1) = bl b := by
+  unfold bOut bl
+  by_cases hb : b = 0
+  · simp [hb]
+  · simp only [hb, ne_eq, not_false_eq_true, ↓reduceIte]
+    rcases h with h | h
+    · exact absurd h hb
+    · unfold Font.has at h
+      cases hg : F.glyph b with
+      | none => rw [hg] at h; cases h
+      | some g => simp
+
+theorem bOut_glyph (F : Font) (b : Nat) : ∀ p ∈ bOut F b, F.glyph p.1 = some p.2 := by
+  unfold bOut
+  intro p hp
+  by_cases hb : b = 0
+  · simp [hb] at hp
+  · simp only [hb, ne_eq, not_false_eq_true, ↓reduceIte] at hp
+    cases hg : F.glyph b with
+    | none => rw [hg] at hp; cases hp
+    | some g => rw [hg] at hp; simp at hp; subst hp; exact hg
+
+/-- unfolding of `decompose` at `fuel + 1` when the character decomposes and `b` is usable -/
+theorem decompose_succ (U : UData) (F : Font) (s : Bool) (fuel ab a b : Nat) (hd : U.decomp ab = some (a, b))
+    (hb : b = 0 ∨ F.has b = true) :
+    decompose U F s (fuel + 1) ab =
+      match (if !s || (F.glyph a).isNone then decompose U F s fuel a else some []) with
+      | none => none
+      | some (r :: rs) => some (r :: rs ++ bOut F b)
+      | some [] => match F.glyph a with
+        | some g => some ((a, g) :: bOut F b)
+        | none => some [] := by
+  have hc : ¬(b ≠ 0 ∧ (F.glyph b).isNone = true) := by
+    intro ⟨h1, h2⟩
+    rcases hb with hb | hb
+    · exact h1 hb
+    · unfold Font.has at hb; rw [Option.isNone_iff_eq_none] at h2; rw [h2] at hb; cases hb
+  rw [decompose]
+  simp only [hd, hc, if_false]
+  rfl
+
+theorem decompose_shortest (U : UData) (F : Font) (fuel c : Nat) (r : List (Nat × Nat))
+    (h : decompose U F true fuel c = some r) :
+    (r ≠ [] → ∃ k, Cand U F c k (r.map (·.1)) ∧ (∀ p ∈ r, F.glyph p.1 = some p.2) ∧
+        ∀ k' out', Cand U F c k' out' → k ≤ k') ∧
+    (r = [] → ∀ k out, ¬Cand U F c k out) := by
+  induction fuel generalizing c r with
+  | zero => simp [decompose] at h
+  | succ fuel ih =>
+    cases hd : U.decomp c with
+    | none =>
+      rw [decompose] at h
+      simp only [hd] at h
+      cases h
+      refine ⟨fun h => absurd rfl h, fun _ k out hc => ?_⟩
+      cases hc <;> simp_all
+    | some ab =>
+      obtain ⟨a, b⟩ := ab
+      by_cases hb : b = 0 ∨ F.has b = true
+      · rw [decompose_succ U F true fuel c a b hd hb] at h
+        cases hg : F.glyph a with
+        | none =>
+          simp only [hg, Bool.not_true, Option.isNone_none, Bool.or_true, ↓reduceIte] at h
+          cases hr : decompose U F true fuel a with
+          | none => rw [hr] at h; cases h
+          | some r' =>
+            rw [hr] at h
+            have ih' := ih a r' hr
+            cases r' with
+            | nil =>
+              simp only [Option.some.injEq] at h
+              subst h
+              refine ⟨fun h => absurd rfl h, fun _ k out hc => ?_⟩
+              cases hc with
+              | base h1 h2 h3 =>
+                rw [hd] at h1; cases h1
+                unfold Font.has at h2; rw [hg] at h2; cases h2
+              | step h1 h2 h3 =>
+                rw [hd] at h1; cases h1
+                exact ih'.2 rfl _ _ h3
+            | cons x xs =>
+              simp only [Option.some.injEq] at h
+              subst h
+              refine ⟨fun _ => ?_, fun h => by simp at h⟩
+              obtain ⟨k, hk1, hk2, hk3⟩ := ih'.1 (by simp)
+              refine ⟨k + 1, ?_, ?_, ?_⟩
+              · have := Cand.step hd hb hk1
+                simpa [bOut_map F b hb] using this
+              · intro p hp
+                simp only [List.cons_append, List.mem_cons, List.mem_append] at hp
+                rcases hp with hp | hp | hp
+                · exact hk2 p (by simp [hp])
+                · exact hk2 p (by simp [hp])
+                · exact bOut_glyph F b p hp
+              · intro k' out' hc
+                cases hc with
+                | base h1 h2 h3 =>
+                  rw [hd] at h1; cases h1
+                  unfold Font.has at h2; rw [hg] at h2; cases h2
+                | step h1 h2 h3 =>
+                  rw [hd] at h1; cases h1
+                  have := hk3 _ _ h3
+                  omega
+        | some g =>
+          simp only [hg, Bool.not_true, Option.isNone_some, Bool.or_false, Bool.false_eq_true, ↓reduceIte,
+            Option.some.injEq] at h
+          subst h
+          refine ⟨fun _ => ?_, fun h => by simp at h⟩
+          refine ⟨1, ?_, ?_, ?_⟩
+          · have : Cand U F c 1 (a :: bl b) := Cand.base hd (by unfold Font.has; rw [hg]; rfl) hb
+            simpa [bOut_map F b hb] using this
+          · intro p hp
+            simp only [List.mem_cons] at hp
+            rcases hp with hp | hp
+            · subst hp; exact hg
+            · exact bOut_glyph F b p hp
+          · intro k' out' hc; exact hc.pos
+      · rw [decompose] at h
+        have hc : b ≠ 0 ∧ (F.glyph b).isNone = true := by
+          refine ⟨fun h0 => hb (Or.inl h0), ?_⟩
+          cases hgb : F.glyph b with
+          | none => rfl
+          | some g => exact absurd (Or.inr (by unfold Font.has; rw [hgb]; rfl)) hb
+        simp only [hd] at h
+        rw [if_pos hc] at h
+        simp only [Option.some.injEq] at h
+        subst h
+        refine ⟨fun h => absurd rfl h, fun _ k out hc' => ?_⟩
+        cases hc' with
+        | base h1 h2 h3 => rw [hd] at h1; cases h1; exact hb h3
+        | step h1 h2 h3 => rw [hd] at h1; cases h1; exact hb h2
+
+theorem decompose_full (U : UData) (F : Font) (fuel c : Nat) (r : List (Nat × Nat))
+    (h : decompose U F false fuel c = some r) :
+    (r ≠ [] → ∃ k, Cand U F c k (r.map (·.1)) ∧ (∀ p ∈ r, F.glyph p.1 = some p.2) ∧
+        ∀ k' out', Cand U F c k' out' → k' ≤ k) ∧
+    (r = [] → ∀ k out, ¬Cand U F c k out) := by
+  induction fuel generalizing c r with
+  | zero => simp [decompose] at h
+  | succ fuel ih =>
+    cases hd : U.decomp c with
+    | none =>
+      rw [decompose] at h
+      simp only [hd] at h
+      cases h
+      refine ⟨fun h => absurd rfl h, fun _ k out hc => ?_⟩
+      cases hc <;> simp_all
+    | some ab =>
+      obtain ⟨a, b⟩ := ab
+      by_cases hb : b = 0 ∨ F.has b = true
+      · rw [decompose_succ U F false fuel c a b hd hb] at h
+        simp only [Bool.not_false, Bool.true_or, ↓reduceIte] at h
+        cases hr : decompose U F false fuel a with
+        | none => rw [hr] at h; cases h
+        | some r' =>
+          rw [hr] at h
+          have ih' := ih a r' hr
+          cases r' with
+          | nil =>
+            cases hg : F.glyph a with
+            | none =>
+              simp only [hg, Option.some.injEq] at h
+              subst h
+              refine ⟨fun h => absurd rfl h, fun _ k out hc => ?_⟩
+              cases hc with
+              | base h1 h2 h3 =>
+                rw [hd] at h1; cases h1
+                unfold Font.has at h2; rw [hg] at h2; cases h2
+              | step h1 h2 h3 =>
+                rw [hd] at h1; cases h1
+                exact ih'.2 rfl _ _ h3
+            | some g =>
+              simp only [hg, Option.some.injEq] at h
+              subst h
+              refine ⟨fun _ => ?_, fun h => by simp at h⟩
+              refine ⟨1, ?_, ?_, ?_⟩
+              · have : Cand U F c 1 (a :: bl b) := Cand.base hd (by unfold Font.has; rw [hg]; rfl) hb
+                simpa [bOut_map F b hb] using this
+              · intro p hp
+                simp only [List.mem_cons] at hp
+                rcases hp with hp | hp
+                · subst hp; exact hg
+                · exact bOut_glyph F b p hp
+              · intro k' out' hc
+                cases hc with
+                | base h1 h2 h3 => exact Nat.le_refl _
+                | step h1 h2 h3 =>
+                  rw [hd] at h1; cases h1
+                  exact absurd h3 (ih'.2 rfl _ _)
+          | cons x xs =>
+            simp only [Option.some.injEq] at h
+            subst h
+            refine ⟨fun _ => ?_, fun h => by simp at h⟩
+            obtain ⟨k, hk1, hk2, hk3⟩ := ih'.1 (by simp)
+            refine ⟨k + 1, ?_, ?_, ?_⟩
+            · have := Cand.step hd hb hk1
+              simpa [bOut_map F b hb] using this
+            · intro p hp
+              simp only [List.cons_append, List.mem_cons, List.mem_append] at hp
+              rcases hp with hp | hp | hp
+              · exact hk2 p (by simp [hp])
+              · exact hk2 p (by simp [hp])
+              · exact bOut_glyph F b p hp
+            · intro k' out' hc
+              cases hc with
+              | base h1 h2 h3 => have := hk1.pos; omega
+              | step h1 h2 h3 =>
+                rw [hd] at h1; cases h1
+                have := hk3 _ _ h3
+                omega
+      · rw [decompose] at h
+        have hc : b ≠ 0 ∧ (F.glyph b).isNone = true := by
+          refine ⟨fun h0 => hb (Or.inl h0), ?_⟩
+          cases hgb : F.glyph b with
+          | none => rfl
+          | some g => exact absurd (Or.inr (by unfold Font.has; rw [hgb]; rfl)) hb
+        simp only [hd] at h
+        rw [if_pos hc] at h
+        simp only [Option.some.injEq] at h
+        subst h
+        refine ⟨fun h => absurd rfl h, fun _ k out hc' => ?_⟩
+        cases hc' with
+        | base h1 h2 h3 => rw [hd] at h1; cases h1; exact hb h3
+        | step h1 h2 h3 => rw [hd] at h1; cases h1; exact hb h2
+
+/-- candidates are deterministic in the depth -/
+theorem Cand.out_unique {U : UData} {F : Font} {c k : Nat} {o1 o2 : List Nat}
+    (h1 : Cand U F c k o1) (h2 : Cand U F c k o2) : o1 = o2 := by
+  induction h1 generalizing o2 with
+  | base d1 a1 b1 =>
+    cases h2 with
+    | base d2 a2 b2 => rw [d1] at d2; cases d2; rfl
+    | step d2 b2 c2 => have := c2.pos; omega
+  | step d1 b1 c1 ih =>
+    cases h2 with
+    | base d2 a2 b2 => have := c1.pos; omega
+    | step d2 b2 c2 => rw [d1] at d2; cases d2; rw [ih c2]
+
+/-- full canonical decomposition along first components, as a relation -/
+inductive FullDecomp (U : UData) : Nat → List Nat → Prop
+  | leaf {c : Nat} : U.decomp c = none → FullDecomp U c [c]
+  | node {c a b : Nat} {l : List Nat} : U.decomp c = some (a, b) → FullDecomp U a l → FullDecomp U c (l ++ bl b)
+
+/-- C08 (normalizer part, first round): what `decompose` outputs, decomposed to the end, is the full
+    decomposition of the character. -/
+theorem Cand.full {U : UData} {F : Font} {c k : Nat} {out : List Nat} (h : Cand U F c k out)
+    {l : List Nat} (hl : FullDecomp U c l) :
+    ∃ a bs la, out = a :: bs ∧ FullDecomp U a la ∧ l = la ++ bs := by
+  induction h generalizing l with
+  | base d1 a1 b1 =>
+    cases hl with
+    | leaf d2 => rw [d1] at d2; cases d2
+    | node d2 f2 => rw [d1] at d2; cases d2; exact ⟨_, _, _, rfl, f2, rfl⟩
+  | @step c0 a0 b0 k0 out0 d1 b1 c1 ih =>
+    cases hl with
+    | leaf d2 => rw [d1] at d2; cases d2
+    | node d2 f2 =>
+      rw [d1] at d2; cases d2
+      obtain ⟨a, bs, la, e1, e2, e3⟩ := ih f2
+      refine ⟨a, bs ++ bl b0, la, ?_, e2, ?_⟩
+      · rw [e1]; rfl
+      · rw [e3, List.append_assoc]
+
+
+/-! ## Part 4: one-character buffers -/
+
+theorem outputChars_spec (U : UData) (K : Consts) (cur : Info) (ps : List (Nat × Nat)) (flags : Nat) :
+    (outputChars U K cur ps flags).1.map (·.cp) = ps.map (·.1) ∧
+    (outputChars U K cur ps flags).1.map (·.gidx) = ps.map (·.2) ∧
+    (∀ x ∈ (outputChars U K cur ps flags).1, x.cluster = cur.cluster ∧ x.mask = cur.mask) := by
+  induction ps generalizing flags with
+  | nil => simp [outputChars]
+  | cons p ps ih =>
+    obtain ⟨u, g⟩ := p
+    simp only [outputChars]
+    have := ih (initProps U K u flags).2
+    refine ⟨?_, ?_, ?_⟩
+    · simp [this.1]
+    · simp [this.2.1]
+    · intro x hx
+      simp only [List.mem_cons] at hx
+      rcases hx with hx | hx
+      · subst hx; simp
+      · exact this.2.2 x hx
+
+theorem cgjGo_spec (p : Info) (l : List Info) :
+    (cgjGo p l).map (·.cp) = l.map (·.cp) ∧ (cgjGo p l).map (·.gidx) = l.map (·.gidx) ∧
+    (cgjGo p l).map (·.cluster) = l.map (·.cluster) ∧ (cgjGo p l).map (·.mask) = l.map (·.mask) := by
+  induction l generalizing p with
+  | nil => simp [cgjGo]
+  | cons x r ih =>
+    cases r with
+    | nil => simp [cgjGo]
+    | cons y r =>
+      simp only [cgjGo, List.map_cons]
+      have := ih x
+      refine ⟨?_, ?_, ?_, ?_⟩
+      · rw [this.1]; split <;> simp [Info.unhide]
+      · rw [this.2.1]; split <;> simp [Info.unhide]
+      · rw [this.2.2.1]; split <;> simp [Info.unhide]
+      · rw [this.2.2.2]; split <;> simp [Info.unhide]
+
+theorem cgjRound_spec (l : List Info) :
+    (cgjRound l).map (·.cp) = l.map (·.cp) ∧ (cgjRound l).map (·.gidx) = l.map (·.gidx) ∧
+    (cgjRound l).map (·.cluster) = l.map (·.cluster) ∧ (cgjRound l).map (·.mask) = l.map (·.mask) := by
+  cases l with
+  | nil => simp [cgjRound]
+  | cons x r =>
+    have := cgjGo_spec x r
+    simp [cgjRound, this.1, this.2.1, this.2.2.1, this.2.2.2]
+
+theorem cgjRound_single (x : Info) : cgjRound [x] = [x] := by simp [cgjRound, cgjGo]
+
+/-- the fast path of the first round is `decompose_current_character` for a supported character -/
+theorem simpleRun_single (U : UData) (F : Font) (K : Consts) (fuel : Nat) (might : Bool) (x : Info) (flags : Nat) :
+    simpleRun U F K fuel might [x] flags = decomposeCurrentCharacter U F K fuel might x flags := by
+  have hrun : decomposeRun U F K fuel might [x] flags = decomposeCurrentCharacter U F K fuel might x flags := by
+    simp only [decomposeRun]
+    cases decomposeCurrentCharacter U F K fuel might x flags with
+    | none => rfl
+    | some r => obtain ⟨o, f⟩ := r; simp
+  cases might with
+  | false => simp only [simpleRun, Bool.false_eq_true, ↓reduceIte]; exact hrun
+  | true =>
+    simp only [simpleRun, ↓reduceIte]
+    cases hg : F.glyph x.cp with
+    | none => simp only; exact hrun
+    | some g =>
+      simp only [decomposeCurrentCharacter, hg, Bool.not_true, Option.isNone_some, Bool.or_self,
+        Bool.false_eq_true, ↓reduceIte]
+
+theorem round1_single (U : UData) (F : Font) (K : Consts) (fuel : Nat) (might always : Bool) (x : Info)
+    (flags : Nat) (as : Bool) :
+    round1 U F K fuel might always [x] flags as =
+      match decomposeCurrentCharacter U F K fuel might x flags with
+      | none => none
+      | some (o, f) => some (o, f, as) := by
+  rw [round1]
+  simp only [List.takeWhile_nil, List.dropWhile_nil]
+  rw [simpleRun_single]
+  cases decomposeCurrentCharacter U F K fuel might x flags with
+  | none => rfl
+  | some r => rfl
+
+/-- `_hb_ot_shape_normalize` on a one-character buffer -/
+theorem normalize_single (U : UData) (F : Font) (K : Consts) (fuel pref : Nat) (x : Info) (flags : Nat) :
+    normalize U F K fuel pref [x] flags =
+      match decomposeCurrentCharacter U F K fuel
+          ((if pref = 4 then 2 else pref) == 0 || ((if pref = 4 then 2 else pref) != 1 && (if pref = 4 then 2 else pref) != 3))
+          x flags with
+      | none => none
+      | some (o, f) => some (if f &&& K.flagCGJ ≠ 0 then cgjRound o else o, f) := by
+  unfold normalize
+  simp only [List.isEmpty_cons, Bool.false_eq_true, ↓reduceIte]
+  rw [round1_single]
+  cases decomposeCurrentCharacter U F K fuel _ x flags with
+  | none => rfl
+  | some r => obtain ⟨o, f⟩ := r; simp
+
+
+/-! ## Part 5: helpers for C09_single -/
+
+/-- normalization preferences that may short-circuit (none, composed diacritics, auto) -/
+def mightPref (pref : Nat) : Prop := pref = 0 ∨ pref = 2 ∨ pref = 4
+/-- normalization preferences that never short-circuit (decomposed, composed no-short-circuit) -/
+def fullPref (pref : Nat) : Prop := pref = 1 ∨ pref = 3
+
+theorem might_of (pref : Nat) (h : mightPref pref) :
+    ((if pref = 4 then 2 else pref) == 0 || ((if pref = 4 then 2 else pref) != 1 && (if pref = 4 then 2 else pref) != 3)) = true := by
+  rcases h with h | h | h <;> subst h <;> decide
+
+theorem full_of (pref : Nat) (h : fullPref pref) :
+    ((if pref = 4 then 2 else pref) == 0 || ((if pref = 4 then 2 else pref) != 1 && (if pref = 4 then 2 else pref) != 3)) = false := by
+  rcases h with h | h <;> subst h <;> decide
+
+/-- what `decompose_current_character` does once `decompose` produced something -/
+theorem dcc_decomposed (U : UData) (F : Font) (K : Consts) (fuel : Nat) (s : Bool) (x : Info) (flags : Nat)
+    (r : List (Nat × Nat)) (hr : r ≠ [])
+    (h : (if !s || (F.glyph x.cp).isNone then decompose U F s fuel x.cp else some []) = some r) :
+    decomposeCurrentCharacter U F K fuel s x flags = some (outputChars U K x r flags) := by
+  unfold decomposeCurrentCharacter
+  simp only [h]
+  cases r with
+  | nil => exact absurd rfl hr
+  | cons p ps => rfl
+
+/-- and when it produced nothing: the character is kept, with some glyph index -/
+theorem dcc_kept (U : UData) (F : Font) (K : Consts) (fuel : Nat) (s : Bool) (x : Info) (flags : Nat)
+    (h : (if !s || (F.glyph x.cp).isNone then decompose U F s fuel x.cp else some []) = some []) :
+    ∃ g p f, decomposeCurrentCharacter U F K fuel s x flags = some ([{ x with gidx := g, props := p }], f) ∧
+      (∀ g', F.glyph x.cp = some g' → g = g' ∧ p = x.props ∧ f = flags) := by
+  unfold decomposeCurrentCharacter
+  simp only [h]
+  cases hg : F.glyph x.cp with
+  | some g => exact ⟨g, x.props, flags, rfl, fun g' hg' => by cases hg'; exact ⟨rfl, rfl, rfl⟩⟩
+  | none =>
+    simp only
+    split
+    · exact ⟨_, _, _, rfl, fun g' hg' => by cases hg'⟩
+    · split
+      · exact ⟨_, x.props, _, rfl, fun g' hg' => by cases hg'⟩
+      · exact ⟨_, x.props, _, rfl, fun g' hg' => by cases hg'⟩
+
+theorem zip_mem {α : Type} (l : List α) (f g : α → Nat) (r : List (Nat × Nat))
+    (h1 : l.map f = r.map (·.1)) (h2 : l.map g = r.map (·.2)) : ∀ i ∈ l, (f i, g i) ∈ r := by
+  induction l generalizing r with
+  | nil => intro i hi; cases hi
+  | cons a l ih =>
+    cases r with
+    | nil => simp at h1
+    | cons p r =>
+      simp only [List.map_cons, List.cons.injEq] at h1 h2
+      intro i hi
+      simp only [List.mem_cons] at hi
+      rcases hi with hi | hi
+      · subst hi; rw [h1.1, h2.1]; exact List.mem_cons_self
+      · exact List.mem_cons_of_mem _ (ih r h1.2 h2.2 i hi)
+
+/-- output of `normalize` on `[x]` when `decompose` produced `r ≠ []` -/
+theorem normalize_single_decomposed (U : UData) (F : Font) (K : Consts) (fuel pref : Nat) (x : Info) (flags : Nat)
+    (s : Bool)
+    (hs : ((if pref = 4 then 2 else pref) == 0 || ((if pref = 4 then 2 else pref) != 1 && (if pref = 4 then 2 else pref) != 3)) = s)
+    (r : List (Nat × Nat)) (hr : r ≠ [])
+    (h : (if !s || (F.glyph x.cp).isNone then decompose U F s fuel x.cp else some []) = some r)
+    (hg : ∀ p ∈ r, F.glyph p.1 = some p.2) :
+    ∃ l f, normalize U F K fuel pref [x] flags = some (l, f) ∧ l.map (·.cp) = r.map (·.1) ∧
+      (∀ i ∈ l, F.glyph i.cp = some i.gidx ∧ i.cluster = x.cluster ∧ i.mask = x.mask) := by
+  rw [normalize_single, hs, dcc_decomposed U F K fuel s x flags r hr h]
+  have sp := outputChars_spec U K x r flags
+  generalize outputChars U K x r flags = oc at sp
+  obtain ⟨o, f⟩ := oc
+  simp only at sp
+  by_cases hc : f &&& K.flagCGJ ≠ 0
+  · refine ⟨cgjRound o, f, by simp [hc], ?_, ?_⟩
+    · rw [(cgjRound_spec o).1, sp.1]
+    · have c := cgjRound_spec o
+      have hz := zip_mem (cgjRound o) (·.cp) (·.gidx) r (by rw [c.1, sp.1]) (by rw [c.2.1, sp.2.1])
+      intro i hi
+      refine ⟨hg _ (hz i hi), ?_⟩
+      -- cluster and mask: positionwise equal to those of `o`
+      have hcl : ∀ j ∈ (cgjRound o).map (·.cluster), j = x.cluster := by
+        rw [c.2.2.1]; intro j hj
+        obtain ⟨y, hy, rfl⟩ := List.mem_map.mp hj
+        exact (sp.2.2 y hy).1
+      have hmk : ∀ j ∈ (cgjRound o).map (·.mask), j = x.mask := by
+        rw [c.2.2.2]; intro j hj
+        obtain ⟨y, hy, rfl⟩ := List.mem_map.mp hj
+        exact (sp.2.2 y hy).2
+      exact ⟨hcl _ (List.mem_map.mpr ⟨i, hi, rfl⟩), hmk _ (List.mem_map.mpr ⟨i, hi, rfl⟩)⟩
+  · refine ⟨o, f, by simp [hc], sp.1, ?_⟩
+    have hz := zip_mem o (·.cp) (·.gidx) r sp.1 sp.2.1
+    intro i hi
+    exact ⟨hg _ (hz i hi), sp.2.2 i hi⟩
+
+theorem normalize_single_kept (U : UData) (F : Font) (K : Consts) (fuel pref : Nat) (x : Info) (flags : Nat)
+    (s : Bool)
+    (hs : ((if pref = 4 then 2 else pref) == 0 || ((if pref = 4 then 2 else pref) != 1 && (if pref = 4 then 2 else pref) != 3)) = s)
+    (h : (if !s || (F.glyph x.cp).isNone then decompose U F s fuel x.cp else some []) = some []) :
+    ∃ g p f, normalize U F K fuel pref [x] flags = some ([{ x with gidx := g, props := p }], f) ∧
+      (∀ g', F.glyph x.cp = some g' → g = g' ∧ p = x.props ∧ f = flags) := by
+  obtain ⟨g, p, f, h1, h2⟩ := dcc_kept U F K fuel s x flags h
+  refine ⟨g, p, f, ?_, h2⟩
+  rw [normalize_single, hs, h1]
+  simp only [cgjRound_single, ite_self]
+
+
 end RbModel.Norm
